@@ -6,6 +6,7 @@ static void gen(plan_t *p, rng_t *r)
 {
     int n = rng_range(r, 3, 30);
     plan_knob(p, "alloc.fill", rng_range(r, 0, 4));
+    plan_knob(p, "alloc.zero", rng_chance(r, 1, 4)); plan_knob(p, "alloc.realloc0", rng_chance(r, 1, 4));      /* the two readings ISO C allows for a request of no bytes */
     plan_knob(p, "alloc.realloc", rng_range(r, 0, 2));
     plan_knob(p, "alloc.reuse", rng_range(r, 0, 2));
     plan_knob(p, "alloc.place", rng_range(r, 0, 1));
